@@ -356,6 +356,15 @@ func scenario(rec *mon.Recorder, c int) {
 	cl.OnCrash = func(n *sim.Node, cp *sim.CrashPoint) {
 		rec.Seen("crash_points", cp.Hit)
 	}
+	if late {
+		// a slow allocator loop (the late-joiner family only): between taking a watched partition and looking at it
+		// the catalogue replay of a restarting node gets ahead
+		cl.OnPoint = func(point string, args ...interface{}) {
+			if point == "allocator.loop.update" {
+				time.Sleep(3 * time.Millisecond)
+			}
+		}
+	}
 	// ---- scenario -----------------------------------------------------------
 	// every eighth scenario: the third replica joins late (its groups start from an empty log) and crashes at one
 	// of its partition groups' first durable writes
